@@ -46,3 +46,15 @@ pub fn tbc_server(key: &[u8; 40]) -> tbc_header::HeaderCrypto {
         Err(e) => mc::util::machinery_error(&format!("cannot construct a TBC server HeaderCrypto ({e}); see C06")),
     }
 }
+
+/// Behavioural equality of two cipher objects: fed the same `n` bytes they produce the same
+/// output. Used instead of derived `==` wherever a property speaks about bytes and "staying in
+/// step" rather than about object identity (scratch buffers and stashes may legitimately differ).
+pub fn same_future<T: Clone>(a: &T, b: &T, n: usize, op: impl Fn(&mut T, &mut [u8])) -> bool {
+    let (mut a, mut b) = (a.clone(), b.clone());
+    let mut x: Vec<u8> = (0..n).map(|i| (i as u8).wrapping_mul(31)).collect();
+    let mut y = x.clone();
+    op(&mut a, &mut x);
+    op(&mut b, &mut y);
+    x == y
+}
